@@ -352,9 +352,10 @@ package queue
 //@ func (*SQLiteStore).incSQLiteRetry
 //@   trusted
 //@ func (*SQLiteStore).maybePrune
-//@   trusted
-//@   modifies durable
-//@   ensures durable >= old(durable)
+//@   requires s != nil && s.db != nil
+//@   modifies durable, syncFullSet, s.lastPrune
+//@   calls database/sql.(*DB).ExecContext requires [C02:prune_statements_run_only_under_their_own_policy_with_its_cutoff] nvarargs == 2 && ((pruneByReceivedAt(arg2) && vararg0 == "queued" && s.retentionMaxAge > 0 && vararg1 == unixNanoOf(now - s.retentionMaxAge)) || (pruneByNextRunAt(arg2) && vararg0 == "delivered" && s.deliveredRetentionMaxAge > 0 && vararg1 == unixNanoOf(now - s.deliveredRetentionMaxAge)) || (pruneByReceivedAt(arg2) && vararg0 == "dead" && s.dlqRetentionMaxAge > 0 && vararg1 == unixNanoOf(now - s.dlqRetentionMaxAge)) || (pruneDeadDepth(arg2) && vararg0 == "dead" && s.dlqMaxDepth > 0 && vararg1 == s.dlqMaxDepth))
+//@   ensures [durable_only_grows] durable >= old(durable)
 //@ func (*SQLiteStore).now
 //@   trusted
 //@ func (*SQLiteStore).signal
@@ -862,3 +863,12 @@ package queue
 //@   ensures [C05:sweep_granularity_is_at_most_10ms] sweepInterval(s) > 0 && sweepInterval(s) <= 10000000
 //@   ensures [C05:sweeps_only_when_the_interval_elapsed_since_the_observed_sweep] result ==> unixNanoOf(now) - local(lastNanos) >= sweepInterval(s)
 //@   ensures [C05:declines_only_within_the_interval_or_when_another_sweeper_won] !result ==> unixNanoOf(now) - local(lastNanos) < sweepInterval(s) || !casSwapped
+
+// ---- C02/C01: the SQLite retention prune deletes only under the policy that is switched on, with that policy's cutoff ----
+// The SQL text is opaque to the verifier; what is checked is that maybePrune issues no statement other than these four,
+// each only when its own policy is enabled and with its own state and cutoff as parameters.
+
+//@ spec
+//@ pred pruneByReceivedAt(q string) := q == "\nDELETE FROM queue_items\nWHERE state = ?\n  AND received_at <= ?;\n"
+//@ pred pruneByNextRunAt(q string) := q == "\nDELETE FROM queue_items\nWHERE state = ?\n  AND next_run_at <= ?;\n"
+//@ pred pruneDeadDepth(q string) := q == "\nDELETE FROM queue_items\nWHERE id IN (\n  SELECT id FROM queue_items\n  WHERE state = ?\n  ORDER BY received_at DESC\n  LIMIT -1 OFFSET ?\n);\n"
